@@ -66,7 +66,7 @@ STAGES = {
             S("schedules", "^TestC16$", quick=3000, thorough=150000, shards=(4, 16)),
             S("schedules-race", "^TestC16$", quick=300, thorough=20000, shards=(2, 16), race=True)],
     "C17": [S("grid", "^TestC17$", shards=(4, 16)),
-            S("neighbours", "^TestC17Neighbours$|^TestC17Large$")],
+            S("neighbours", "^TestC17Neighbours$|^TestC17Large$|^TestC17Huge$")],
     "C01": [S("sweep", "^TestC01Sweep$", shards=(3, 9)),
             S("sender-dies", "^TestC01SenderDies$"),
             S("roundtrip", "^TestC01$", quick=250, thorough=4000, shards=(6, 16), timeout=("15m", "90m"))],
